@@ -334,29 +334,8 @@ fn o13_1_weak_delete_n3() {
     o13_1::<3>();
 }
 
-#[kani::proof]
-#[kani::unwind(5)]
-#[kani::stub(alloc::sync::Arc::drop_slow, crate::vk_common::arc_drop_slow_stub)]
-#[kani::stub(std::alloc::handle_alloc_error, crate::vk_common::alloc_err_stub)]
-fn o13_1_weak_delete_shape_aaa() {
-    o13_1_shape::<3>(Some([b'a', b'a', b'a']));
-}
 
-#[kani::proof]
-#[kani::unwind(5)]
-#[kani::stub(alloc::sync::Arc::drop_slow, crate::vk_common::arc_drop_slow_stub)]
-#[kani::stub(std::alloc::handle_alloc_error, crate::vk_common::alloc_err_stub)]
-fn o13_1_weak_delete_shape_aab() {
-    o13_1_shape::<3>(Some([b'a', b'a', b'b']));
-}
 
-#[kani::proof]
-#[kani::unwind(5)]
-#[kani::stub(alloc::sync::Arc::drop_slow, crate::vk_common::arc_drop_slow_stub)]
-#[kani::stub(std::alloc::handle_alloc_error, crate::vk_common::alloc_err_stub)]
-fn o13_1_weak_delete_shape_abb() {
-    o13_1_shape::<3>(Some([b'a', b'b', b'b']));
-}
 
 // =============================================================================================
 // O9.1 / O17.1: dropped callback and filter verdicts
